@@ -313,24 +313,31 @@ def run (t : Tbl) (cmd : String) (args : List String) : Tbl × String :=
         | some me2 =>
           let env1 := envOf t e
           let env2 := me2.env
-          let s := inner e.sk
-          match s.pos.binsList, s.neg.binsList, parseFBins posS, parseFBins negS with
-          | some p, some n, some gp, some gn =>
-            if F64.eq sc F64.one && env1.id.equals env2.id then
-              -- identity shortcut: an exact copy
-              let same (a : List (Int × Rat)) (b : List (Int × F64)) : Bool :=
-                a.map (fun x => (x.1, F64.fin x.2)) == b
-              (t, if same p gp && same n gn then "ok" else "MODEL-DIFF identity-copy")
-            else
-              let mp := ChangeMapping.accumulate (ChangeMapping.spreadStore env1 env2 sc p 100000)
-              let mn := ChangeMapping.accumulate (ChangeMapping.spreadStore env1 env2 sc n 100000)
-              match mp, mn with
-              | some mp, some mn =>
-                let dp := cmpBins mp gp
-                let dn := cmpBins mn gn
-                (t, if dp == "" && dn == "" then "ok" else s!"MODEL-DIFF pos[{dp}] neg[{dn}]")
-              | _, _ => (t, "MODEL-DIFF non-finite")
-          | _, _, _, _ => (t, "bad-op")
+          -- the model's ChangeMapping (identity shortcut included); the bins of the implementation's
+          -- result (float accumulation) are compared with tolerance, the rest of the result exactly
+          let res : Option (Sketch × Option Summary) := match e.sk with
+            | .plain s => (ChangeMapping.changeMapping env1 env2 s sc 100000).map (fun r => (r, none))
+            | .exact x => (ChangeMapping.xchangeMapping env1 env2 x sc 100000).map (fun r => (r.sk, some r.st))
+          match res, parseFBins posS, parseFBins negS with
+          | some (r, st), some gp, some gn =>
+            match r.pos.binsList, r.neg.binsList with
+            | some mp, some mn =>
+              let dp := cmpBins mp gp
+              let dn := cmpBins mn gn
+              if dp == "" && dn == "" then
+                let mapS := match r.mapping with
+                  | some m => s!"{MapId.subFlag m.kind}:{m.gamma.toStr}:{m.indexOffset.toStr}"
+                  | none => "-"
+                let stS := match st with
+                  | none => ""
+                  | some st =>
+                    let x : XSketch := { sk := r, st := st }
+                    s!" count={x.getCount.toStr} sum={x.getSum.toStr} min={showRes x.getMin} max={showRes x.getMax}"
+                (t, s!"ok map={mapS} zero={r.zero.toStr}{stS}")
+              else (t, s!"MODEL-DIFF pos[{dp}] neg[{dn}]")
+            | _, _ => (t, "panic")
+          | none, some _, some _ => (t, "MODEL-DIFF non-finite")
+          | _, _, _ => (t, "bad-op")
     | _, _ => (t, "bad-op")
   | "pbchk", [h, marshalled, streamed] =>
     -- the message built in memory (marshalled by the protobuf library) and the bytes of the streaming
